@@ -22,13 +22,19 @@ def main(tier, seed):
     synrun.token_suite(chk, oracle, sp, jobs, props, B['tokens'], B['ctx'])
     synrun.token_suite(chk, oracle, sp, jobs, props, B['raw'], 0, lo='WHITESPACE', hi='ERROR', raw=True)
     synrun.deep_suite(chk, oracle, sp, jobs, props, 1, 3)
-    # trivia next to names: doc comments / comments / whitespace before labels, parameters, expressions (raw kinds incl. trivia)
+    # trivia next to names: a doc comment / module comment / comment + line break in front of parameters, labels, expressions, patterns
+    # (raw kinds incl. trivia; the comment and the whitespace after it are part of the concrete prefix so that the text is lexer-realisable)
     from mirsym import explore
-    from . import c01
-    for name, prefix in [c for c in c01.RAW_CONTEXTS if c[0] in ('in-variant-fields', 'in-block', 'in-type', 'in-case')] + [('in-params', ['FN_KW', 'IDENT', 'L_PAREN'])]:
-        res, complete = explore.explore(c01.raw_ctx_factory, (2, tuple(prefix), ()), jobs=jobs)
-        chk.add_run('raw ctx %s +2 (names are single tokens)' % name, res, complete, {'symbolic_raw_tokens': 2, 'alphabet': 'WHITESPACE..=ERROR (75 kinds)', 'prefix': prefix}, nontrivial_classes=lambda c: c != 'ok-clean')
-        synrun.confirm_violations(chk, res, oracle, sp, 'raw context %s' % name, props, raw=True)
+    W_ = 'WHITESPACE'
+    DOC_CTX = [('params', ['FN_KW', W_, 'IDENT', 'L_PAREN', W_]), ('variant-fields', ['TYPE_KW', W_, 'U_IDENT', W_, 'L_BRACE', W_, 'U_IDENT', 'L_PAREN', W_]),
+               ('block', ['FN_KW', W_, 'IDENT', 'L_PAREN', 'R_PAREN', W_, 'L_BRACE', W_]), ('case-clauses', ['FN_KW', W_, 'IDENT', 'L_PAREN', 'R_PAREN', W_, 'L_BRACE', W_, 'CASE_KW', W_, 'IDENT', W_, 'L_BRACE', W_]),
+               ('call-args', ['FN_KW', W_, 'IDENT', 'L_PAREN', 'R_PAREN', W_, 'L_BRACE', W_, 'IDENT', 'L_PAREN', W_])]
+    for name, prefix in DOC_CTX:
+        for com in ('COMMENT_STATEMENT', 'COMMENT_MODULE', 'COMMENT'):
+            res, complete = explore.explore(doc_ctx_factory, (2, tuple(prefix + [com, W_])), jobs=jobs)
+            chk.add_run('raw ctx %s after a %s + line break, +2 raw tokens (names are single tokens)' % (name, com), res, complete,
+                        {'symbolic_raw_tokens': 2, 'alphabet': 'WHITESPACE..=ERROR (75 kinds)', 'prefix': prefix + [com, W_]}, nontrivial_classes=lambda c: c != 'ok-clean')
+            synrun.confirm_violations(chk, res, oracle, sp, 'raw context %s after %s' % (name, com), props, raw=True)
     synrun.lexer_suite(chk, oracle, sp, jobs, props + ['C01/C20', 'C01: token'], B['lex'], B['pipeline'])
     oracle.close()
     syn.W.cleanup()
@@ -49,6 +55,11 @@ def main(tier, seed):
         'ranges computed by ide queries (navigation targets, references, rename edits, completion source ranges, highlights) need the salsa database and rowan cursors and are outside the claim']
     chk.trusted += synrun.SYN_TRUSTED
     return chk.finish({'unrealisable_counterexamples': chk.extra.get('unrealisable', 0)})
+
+
+def doc_ctx_factory(k, prefix_raw):
+    from . import synspecs as _s
+    return _s.TokenSpec(k, lo='WHITESPACE', hi='ERROR', prefix=list(prefix_raw), suffix=[])
 
 
 def replay(path):
